@@ -2084,16 +2084,20 @@ def r56_builtin(ctx, repo):
             node = node.orelse[0] if len(node.orelse) == 1 and isinstance(
                 node.orelse[0], ast.If) else None
     kinds = [k for k, _ in order]
-    if "internal" not in kinds or "external" not in kinds:
-        raise AnalysisError("get_lut_path: lookup of built-in / registered "
-                            "identifiers not found")
-    ok = kinds.index("internal") < kinds.index("external")
+    if "internal" not in kinds:
+        raise AnalysisError("get_lut_path: lookup of built-in identifiers "
+                            "not found")
+    ok = "external" in kinds and kinds.index("internal") < kinds.index(
+        "external")
     ctx.ob("R5.6", ok,
            "get_lut_path resolves a built-in identifier before it consults "
            "the registered tables" if ok else
-           "get_lut_path consults the registered tables before the "
-           "built-in ones: a registered file can replace a built-in LUT",
-           node=order[kinds.index("external")][1].test,
+           ("get_lut_path never consults the registered tables"
+            if "external" not in kinds else
+            "get_lut_path consults the registered tables before the "
+            "built-in ones: a registered file can replace a built-in LUT"),
+           node=order[kinds.index("external")][1].test
+           if "external" in kinds else glp,
            label="built-in before registered")
     reg = repo.func(LOAD, "register_lut")
     stores = [n for n in walk(reg) if isinstance(n, ast.Assign) and any(
@@ -2699,6 +2703,165 @@ def r58(ctx, repo):
            label="alias resolved before dispatch")
 
 
+class _LutPathModel(_Fold):
+    """get_lut_path executed on a model of the file system / registries"""
+
+    def ev(self, e, env):
+        if isinstance(e, ast.Call):
+            n = call_name(e) or ""
+            if n == "get_internal_lut_names_dict" and not e.args:
+                return dict(env["__internal__"])
+            if n.split(".")[-1] == "Path" and len(e.args) == 1:
+                return ("path", self.ev(e.args[0], env))
+            if isinstance(e.func, ast.Attribute) and e.func.attr in (
+                    "exists", "is_file") and not e.args:
+                v = self.ev(e.func.value, env)
+                name = v[1] if isinstance(v, tuple) and v[:1] == (
+                    "path",) else v
+                return name in env["__files__"]
+            if n.split(".")[-1] in ("enter_context", "as_file",
+                                    "resolve") and len(e.args) <= 1:
+                return self.ev(e.args[0] if e.args else e.func.value, env)
+            if n.split(".")[-1] == "files":
+                return ("package",)
+            if n == "str" and len(e.args) == 1:
+                v = self.ev(e.args[0], env)
+                return v[1] if isinstance(v, tuple) else str(v)
+        if isinstance(e, ast.BinOp) and isinstance(e.op, ast.Div):
+            left = self.ev(e.left, env)
+            if left == ("package",):
+                return ("resource", self.ev(e.right, env))
+        if isinstance(e, ast.Compare) and len(e.ops) == 1 and isinstance(
+                e.ops[0], (ast.In, ast.NotIn)):
+            a = self.ev(e.left, env)
+            b = self.ev(e.comparators[0], env)
+            if isinstance(a, tuple):
+                a = a[1] if a[:1] == ("path",) else a
+            try:
+                r = a in b
+            except TypeError:
+                self.fail(e)
+            return r if isinstance(e.ops[0], ast.In) else not r
+        if isinstance(e, ast.Subscript) and not isinstance(
+                e.slice, ast.Slice):
+            base = self.ev(e.value, env)
+            k = self.ev(e.slice, env)
+            if isinstance(k, tuple) and k[:1] == ("path",):
+                k = k[1]
+            try:
+                return base[k]
+            except (KeyError, IndexError, TypeError):
+                return ("lookup-error", k)
+        return super().ev(e, env)
+
+    def call(self, func, arg, model):
+        env = dict(model)
+        params = [a.arg for a in func.args.args]
+        env[params[0]] = arg
+
+        class Ret(Exception):
+            def __init__(self, v):
+                self.v = v
+
+        def run(stmts):
+            for st in stmts:
+                if isinstance(st, ast.Return):
+                    raise Ret(self.ev(st.value, env))
+                if isinstance(st, ast.Raise):
+                    raise Ret(("raises",))
+                if isinstance(st, ast.Expr):
+                    continue        # docstring / warnings
+                if isinstance(st, ast.If):
+                    run(st.body if self.ev(st.test, env) else st.orelse)
+                elif isinstance(st, ast.Assign) and len(
+                        st.targets) == 1 and isinstance(
+                        st.targets[0], ast.Name):
+                    env[st.targets[0].id] = self.ev(st.value, env)
+                elif isinstance(st, ast.Assign) and len(
+                        st.targets) == 1 and isinstance(
+                        st.targets[0], ast.Subscript):
+                    self.bind(st.targets[0], self.ev(st.value, env), env)
+                else:
+                    self.fail(st)
+        try:
+            run(func.body)
+        except Ret as r:
+            v = r.v
+            if isinstance(v, tuple) and "lookup-error" in v[:1]:
+                return ("raises",)
+            return v
+        return None
+
+
+def r56_lutpath(ctx, repo):
+    """get_lut_path evaluated on a model: built-in, registered, path,
+    deprecated alias, unknown"""
+    glp = repo.func(LOAD, "get_lut_path")
+    model = {"__internal__": {"LE-2D-FEM-19": "lut_LE-2D-FEM-19.txt",
+                              "HE-2D-FEM-22": "lut_HE-2D-FEM-22.txt"},
+             "__files__": {"/data/my_lut.txt"},
+             "EXTERNAL_LUTS": {"USER-LUT": "/ext/user_lut.txt"}}
+    # other module-level literal containers start out as written
+    for st in repo.tree(LOAD).body:
+        if isinstance(st, ast.Assign) and len(st.targets) == 1 and isinstance(
+                st.targets[0], ast.Name) and isinstance(
+                st.value, (ast.Dict, ast.List, ast.Set)) \
+                and st.targets[0].id not in model:
+            try:
+                model[st.targets[0].id] = _Fold("load.py").ev(st.value, {})
+            except AnalysisError:
+                pass
+    fold = _LutPathModel("get_lut_path")
+    got = {k: fold.call(glp, k, model) for k in (
+        "LE-2D-FEM-19", "HE-2D-FEM-22", "USER-LUT", "/data/my_lut.txt",
+        "no-such-lut")}
+    want = {"LE-2D-FEM-19": ("resource", "lut_LE-2D-FEM-19.txt"),
+            "HE-2D-FEM-22": ("resource", "lut_HE-2D-FEM-22.txt"),
+            "USER-LUT": "/ext/user_lut.txt",
+            "/data/my_lut.txt": ("path", "/data/my_lut.txt"),
+            "no-such-lut": ("raises",)}
+    bad = [k for k in want if got[k] != want[k]]
+    ctx.ob("R5.6", not bad,
+           "get_lut_path, executed on a model (two built-in tables, one "
+           "registered, one file, one unknown name), resolves each kind of "
+           "identifier to its own table and rejects the unknown one"
+           if not bad else
+           f"get_lut_path('{bad[0]}') yields {got[bad[0]]}, expected "
+           f"{want[bad[0]]} (executed on a model)", node=glp,
+           label="lookup on a model")
+    # deprecated aliases: same table as the identifier they stand for
+    aliases = []
+    for n in walk(glp):
+        if isinstance(n, ast.If) and isinstance(n.test, ast.Compare) \
+                and isinstance(n.test.ops[0], ast.Eq):
+            c = const_str(n.test.comparators[0]) or const_str(n.test.left)
+            rebinds = any(isinstance(x, ast.Assign) and txt(
+                x.targets[0]) == glp.args.args[0].arg for x in n.body)
+            if c and rebinds:
+                msgs = " ".join(const_str(a) or "" for w in find_calls(
+                    n, name="warnings.warn") for a in ast.walk(w)
+                    if isinstance(a, ast.Constant))
+                mm = re.search(r"use '([^']+)'", msgs)
+                aliases.append((c, mm.group(1) if mm else None, n))
+    for alias, target, node in aliases:
+        if target is None:
+            raise AnalysisError("get_lut_path: deprecated identifier "
+                                f"'{alias}' without a replacement hint")
+        model2 = dict(model)
+        model2["__internal__"] = dict(model["__internal__"])
+        model2["__internal__"].setdefault(target, f"lut_{target}.txt")
+        a_ = fold.call(glp, alias, model2)
+        t_ = fold.call(glp, target, model2)
+        ok = a_ == t_ and t_ != ("raises",)
+        ctx.ob("R5.6", ok,
+               f"the deprecated identifier '{alias}' resolves to the table "
+               f"of '{target}' (executed)" if ok else
+               f"get_lut_path('{alias}') yields {a_} while "
+               f"get_lut_path('{target}') yields {t_}: the deprecated "
+               "identifier no longer loads the table it stands for",
+               node=node.test, label=f"deprecated alias {alias}")
+
+
 PHYSICAL = ("medium", "channel_width", "flow_rate", "temperature")
 
 
@@ -2780,8 +2943,8 @@ def run(ctx):
     ctx.rule("R5.6", "no function on the call closure of get_emodulus "
              "inside the package writes module-level state; those that read "
              "mutable module state (EXTERNAL_LUTS) are not memoised; a "
-             "built-in LUT cannot be shadowed by a registered one",
-             minimum=25)
+             "built-in LUT cannot be shadowed by a registered one; "
+             "get_lut_path executed on a model", minimum=27)
     ctx.rule("R5.7", "per-medium material constants of each viscosity model "
              "are strictly monotone in the MC concentration (hence pairwise "
              "distinct) and a constant used twice denotes the same quantity "
@@ -2798,6 +2961,7 @@ def run(ctx):
     r51(ctx, repo, m)
     r56(ctx, repo)
     r56_builtin(ctx, repo)
+    r56_lutpath(ctx, repo)
     r57(ctx, repo)
     r58(ctx, repo)
     r59(ctx, repo)
@@ -2923,6 +3087,13 @@ MUTANTS = [
      ("                              flow_rate=flow_rate, "
       "temperature=temperature,\n",
       "                              flow_rate=flow_rate,\n"), "R5.9"),
+    ("deprecated identifier translated to a file name (seeded C06_14)",
+     LOAD,
+     ("        path_or_id = \"LE-2D-FEM-19\"\n",
+      "        path_or_id = internal_dict[\"LE-2D-FEM-19\"]\n"), "R5.6"),
+    ("registered identifiers not looked up", LOAD,
+     ("    elif path_or_id in EXTERNAL_LUTS:\n"
+      "        lut_path = EXTERNAL_LUTS[path_or_id]\n", ""), "R5.6"),
     ("scale functions invert the inplace flag", SCALE,
      ("    copy = not inplace\n    if issubclass(area_um.dtype.type",
       "    copy = inplace\n    if issubclass(area_um.dtype.type"), "R5.1"),
